@@ -437,10 +437,13 @@ func promiseH(s *simrt.Sim) {
 	nextArg := 0
 	for a := 0; a < nact; a++ {
 		n := 1 + s.Choose(3)
-		type spec struct{ kind, unsub int }
+		type spec struct {
+			kind, unsub int
+			nest        bool // the callback registers a further callback on the same event (and asks WasTriggered)
+		}
 		specs := make([]spec, n)
 		for i := range specs {
-			specs[i] = spec{kind: s.Weighted(3, 2), unsub: s.Choose(4)}
+			specs[i] = spec{kind: s.Weighted(3, 2), unsub: s.Choose(4), nest: s.Choose(4) == 3}
 		}
 		s.Go(fmt.Sprintf("actor%d", a), func() {
 			for i, sp := range specs {
@@ -460,10 +463,33 @@ func promiseH(s *simrt.Sim) {
 					subs = append(subs, sb)
 					sb.reg.inv = s.Tick()
 					var un func()
+					// a callback may itself use the event: register a further callback (which is "registered during or
+					// after Trigger" and so runs exactly once) and ask whether the event was triggered
+					nested := func() {
+						if !sp.nest {
+							return
+						}
+						s.Probe("callback-registers-a-callback-on-the-same-event")
+						nb := &sub{name: sb.name + ".nested", plain: isPlain}
+						subs = append(subs, nb)
+						nb.reg.inv = s.Tick()
+						if isPlain {
+							if !plain.WasTriggered() {
+								s.Fail("promise", "not-triggered-inside-callback", "WasTriggered() is false inside a callback of the event")
+							}
+							plain.OnTrigger(func() { nb.runs++ })
+						} else {
+							if !ev.WasTriggered() {
+								s.Fail("promise", "not-triggered-inside-callback", "WasTriggered() is false inside a callback of the event")
+							}
+							ev.OnTrigger(func(v int) { nb.runs++; nb.args = append(nb.args, v) })
+						}
+						nb.reg.ret = s.Tick()
+					}
 					if isPlain {
-						un = plain.OnTrigger(func() { sb.runs++; simrt.Yield() })
+						un = plain.OnTrigger(func() { sb.runs++; simrt.Yield(); nested() })
 					} else {
-						un = ev.OnTrigger(func(v int) { sb.runs++; sb.args = append(sb.args, v); simrt.Yield() })
+						un = ev.OnTrigger(func(v int) { sb.runs++; sb.args = append(sb.args, v); simrt.Yield(); nested() })
 					}
 					sb.reg.ret = s.Tick()
 					if sp.unsub == 3 {
